@@ -472,6 +472,7 @@ pub proof fn lemma_br_shl_le32(g: u32, s: u32, bound: u32)
 
 pub open spec fn br_lz64(x: u64) -> u32 { vstd::std_specs::bits::u64_leading_zeros(x) as u32 }
 pub open spec fn br_lz128(x: u128) -> u32 { dd_lz(x) }
+pub open spec fn br_lz32(x: u32) -> u32 { vstd::std_specs::bits::u32_leading_zeros(x) as u32 }
 
 /// x != 0:  lz < 64,  2^(63 - lz) <= x < 2^(64 - lz);   the even shift `lz & !1`
 pub proof fn lemma_br_lz64(x: u64)
@@ -509,6 +510,42 @@ pub proof fn lemma_br_lz64(x: u64)
     assert((z & !1u32) % 2 == 0 && (z & !1u32) <= z && z <= (z & !1u32) + 1) by (bit_vector) requires z < 64;
 }
 
+/// x != 0:  lz < 32,  2^(31 - lz) <= x < 2^(32 - lz);   the even shift `lz & !1`
+pub proof fn lemma_br_lz32(x: u32)
+    requires x != 0,
+    ensures br_lz32(x) < 32, pow2((31 - br_lz32(x)) as nat) <= x as int, (x as int) < pow2((32 - br_lz32(x)) as nat),
+        (br_lz32(x) & !1u32) % 2 == 0, (br_lz32(x) & !1u32) <= br_lz32(x), br_lz32(x) <= (br_lz32(x) & !1u32) + 1,
+{
+    let z = br_lz32(x);
+    vstd::std_specs::bits::axiom_u32_leading_zeros(x);
+    let zw = z as u32;
+    let top = (31 - z) as u32;
+    assert(sub(31u32, zw) == top as u32);
+    assert(((x >> (top as u32)) & 1) != 0);
+    assert((x >> top) >= 1) by (bit_vector) requires ((x >> (top as u32)) & 1) != 0, top < 32;
+    lemma_br_shr32(x, top);
+    vstd::arithmetic::power2::lemma_pow2_pos(top as nat);
+    vstd::arithmetic::div_mod::lemma_fundamental_div_mod(x as int, pow2(top as nat) as int);
+    vstd::arithmetic::div_mod::lemma_mod_bound(x as int, pow2(top as nat) as int);
+    assert(pow2(top as nat) <= x as int) by (nonlinear_arith)
+        requires x as int == pow2(top as nat) * ((x as int) / (pow2(top as nat) as int)) + (x as int) % (pow2(top as nat) as int),
+            (x as int) / (pow2(top as nat) as int) >= 1, (x as int) % (pow2(top as nat) as int) >= 0, pow2(top as nat) >= 1;
+    if z >= 1 {
+        let up = (32 - z) as u32;
+        assert(sub(32u32, zw) == up as u32);
+        assert(x >> (up as u32) == 0);
+        assert((x >> up) == 0) by (bit_vector) requires x >> (up as u32) == 0, up < 32;
+        lemma_br_shr32(x, up);
+        vstd::arithmetic::power2::lemma_pow2_pos(up as nat);
+        vstd::arithmetic::div_mod::lemma_fundamental_div_mod(x as int, pow2(up as nat) as int);
+        vstd::arithmetic::div_mod::lemma_mod_bound(x as int, pow2(up as nat) as int);
+        assert(pow2(up as nat) * 0 == 0);
+    } else {
+        vstd::arithmetic::power2::lemma2_to64();
+    }
+    assert((z & !1u32) % 2 == 0 && (z & !1u32) <= z && z <= (z & !1u32) + 1) by (bit_vector) requires z < 32;
+}
+
 pub proof fn lemma_br_lz128(x: u128)
     requires x != 0,
     ensures br_lz128(x) < 128, pow2((127 - br_lz128(x)) as nat) <= x as int, (x as int) < pow2((128 - br_lz128(x)) as nat),
@@ -539,4 +576,30 @@ pub proof fn lemma_br_lz128(x: u128)
         lemma_br_pow2_64();
     }
     assert((z & !1u32) % 2 == 0 && (z & !1u32) <= z && z <= (z & !1u32) + 1) by (bit_vector) requires z < 128;
+}
+
+/// x >> k  ==  x div 2^k   (u16: the root of a u32)
+pub proof fn lemma_br_shr16(x: u16, k: u32)
+    requires k < 16,
+    ensures (x >> k) as int == (x as int) / (pow2(k as nat) as int),
+    decreases k,
+{
+    if k == 0 {
+        assert(x >> 0u32 == x) by (bit_vector);
+        vstd::arithmetic::power2::lemma2_to64();
+        assert((x as int) / 1 == x as int);
+    } else {
+        let k1 = (k - 1) as u32;
+        lemma_br_pow2_step(k as nat);
+        let p = pow2(k1 as nat) as int;
+        assert(pow2(k as nat) as int == p * 2);
+        lemma_br_shr16(x, k1);
+        let y = x >> k1;
+        assert(x >> k == (y >> 1u32)) by (bit_vector) requires y == x >> k1, k1 == (k - 1) as u32, 0 < k < 16;
+        assert((y >> 1u32) == y / 2) by (bit_vector);
+        vstd::arithmetic::div_mod::lemma_div_denominator(x as int, p, 2);
+        assert(p * 2 == 2 * p);
+        assert(((x as int) / p) / 2 == (x as int) / (p * 2));
+        assert((y >> 1u32) as int == (y as int) / 2);
+    }
 }
